@@ -520,6 +520,12 @@ class SymStr(str, SymStrBase):
                 if not good:
                     return False
                 conds.append(_to_sb(_cell_in(c, "".join(good))))
+            elif isinstance(c, T):
+                # the rendering of a finite real: contains a digit, and - unless it is a non-negative integer - a sign,
+                # point or exponent: never all-alphabetic / all-blank; all-digits / alphanumeric cannot be decided
+                if pred_concrete in (str.isalpha, str.isspace) or pred_concrete("0") is False:
+                    return False
+                raise Inconclusive("character class of opaque token")
             else:
                 raise Inconclusive("character class of opaque token")
         return bool(_all([x.t if isinstance(x, SymBool) else x for x in conds]))
